@@ -8,7 +8,9 @@ package main
 import (
 	"bytes"
 	"fmt"
+	"math"
 	"math/rand/v2"
+	"net"
 	"os"
 
 	"github.com/vmware/go-ipfix/pkg/collector"
@@ -195,6 +197,16 @@ func (ck *checker) one(k int, e regtable.Elem, ie, sie *entities.InfoElement, p 
 		} else if e.Len == refipfix.VarLen {
 			c.Add("prefix1", 1)
 		}
+		// the exported stand-alone encoder must agree with the record encoder and the reference
+		if gv, ok := goValue(e, p); ok {
+			eb, err := entities.EncodeToIEDataType(lib.LibType(e.Type), gv)
+			if err != nil {
+				c.Violation(k, "encode-helper-error:"+e.Type.String(), err.Error(), desc)
+			} else if !bytes.Equal(eb, want) {
+				c.Violation(k, "encode-helper-bytes:"+e.Type.String(), fmt.Sprintf("EncodeToIEDataType gives %x..., reference encoding %x...", head(eb, 32), head(want, 32)), desc)
+			}
+			c.Add("encode_helper_compared", 1)
+		}
 		// direct decode
 		d, err := entities.DecodeAndCreateInfoElementWithValue(ie, p)
 		if err != nil {
@@ -209,6 +221,41 @@ func (ck *checker) one(k int, e regtable.Elem, ie, sie *entities.InfoElement, p 
 			c.Violation(k, "length-decoded:"+e.Type.String(), fmt.Sprintf("decoded element GetLength()=%d, wire %d", d.GetLength(), len(want)), desc)
 		}
 	})
+}
+
+// goValue is the Go value an application would hand to EncodeToIEDataType for the payload.
+func goValue(e regtable.Elem, p []byte) (interface{}, bool) {
+	switch e.Type {
+	case refipfix.U8:
+		return uint8(refipfix.GU(p)), true
+	case refipfix.U16:
+		return uint16(refipfix.GU(p)), true
+	case refipfix.U32, refipfix.DTSec:
+		return uint32(refipfix.GU(p)), true
+	case refipfix.U64, refipfix.DTMilli:
+		return refipfix.GU(p), true
+	case refipfix.I8:
+		return int8(uint8(refipfix.GU(p))), true
+	case refipfix.I16:
+		return int16(uint16(refipfix.GU(p))), true
+	case refipfix.I32:
+		return int32(uint32(refipfix.GU(p))), true
+	case refipfix.I64:
+		return int64(refipfix.GU(p)), true
+	case refipfix.F32:
+		return math.Float32frombits(uint32(refipfix.GU(p))), true
+	case refipfix.F64:
+		return math.Float64frombits(refipfix.GU(p)), true
+	case refipfix.Bool:
+		return p[0] == 1, true
+	case refipfix.Mac:
+		return net.HardwareAddr(p), true
+	case refipfix.IPv4, refipfix.IPv6:
+		return net.IP(p), true
+	case refipfix.String:
+		return string(p), true
+	}
+	return nil, false // octetArray: the helper documents that it does not support it
 }
 
 func head(b []byte, n int) []byte {
